@@ -9,6 +9,7 @@ import Driver.BrokerCmd
 import Driver.TypeIdCmd
 import Driver.DiscCmd
 import Driver.TypedCmd
+import Driver.SchemaCmd
 
 namespace Aldrin.Driver
 open Aldrin
@@ -180,6 +181,8 @@ def step (ds : DState) (line : String) : DState × String :=
       | none => match ioCmd cmd args with
         | some out => (ds, out)
         | none => match typeIdCmd cmd args with
+          | some out => (ds, out)
+          | none => match schemaCmd cmd args with
           | some out => (ds, out)
           | none => match discCmd ds.disc cmd args with
           | some (d, out) => ({ ds with disc := d }, out)
